@@ -18,7 +18,7 @@ PROP = "C41"
 READY = True
 DRIVER = "dm_dfpart"
 LEAN_MODULES = ["DaskModel.Props.C41"]
-CASE_TIMEOUT_S = 30
+CASE_TIMEOUT_S = 90
 LEVEL_TEXT = ("Lean 4: the statement's predicate Truthful (npartitions = len(divisions)-1, divisions sorted, every key of "
               "partition i in [d_i, d_i+1), last closed) and per-construction-path theorems over executable transliterations, "
               "for all inputs: filtering / row-local blockwise / partition-wise subset operations preserve Truthful "
